@@ -150,7 +150,11 @@ func writeEntry(path string, e *absEntry) {
 			_ = os.MkdirAll(tgt, 0o755)
 			_ = os.Symlink(tgt, path)
 		case "fifo": // only under names without a Spec extension: reading one would block
-			_ = unix.Mkfifo(path, 0o644)
+			if ext := filepath.Ext(path); ext == ".json" || ext == ".yaml" {
+				_ = unix.Mknod(path, unix.S_IFSOCK|0o644, 0)
+			} else {
+				_ = unix.Mkfifo(path, 0o644)
+			}
 		case "socket":
 			_ = unix.Mknod(path, unix.S_IFSOCK|0o644, 0)
 		}
@@ -360,6 +364,9 @@ func genFS(r *hx.R, root string, rich, faults, dirFaults bool) *absFS {
 				e = genEntry(r, fmt.Sprintf("d%d", i), used, rich, faults)
 			}
 			e.Name = filepath.Base(d.Path)
+			if e.Kind == entInvalid && e.Invalid == "fifo" {
+				e.Invalid = "socket" // a FIFO under a Spec name would block the reader: never generated
+			}
 			if e.Kind == entInvalid && (e.Invalid == "linktodir") {
 				e.Invalid = "syntax" // a link to a directory as the configured path would be walked as a directory by nobody: keep it a file
 			}
